@@ -6,11 +6,12 @@ from engine_m import exec as X
 from engine_m.session import Binding
 from engine_k import runner as K
 
-EVIDENCE = dict(assumptions=['kernel only (narrow): AttributionData array layout (shift_left/shift_right/hold times/HMAC slots) (Kani); the order in which the final hop of a payment builds its fulfil attribution data in ChannelManager::claim_payment_internal (region of the claim loop, process_fulfill_attribution_data a recording stub; engine M); onion construction and peeling, HMAC/ChaCha/ECDH and failure-code attribution are cryptographic or 1300-byte-buffer bound and outside the claim'])
+EVIDENCE = dict(assumptions=['kernel only (narrow): AttributionData array layout (shift_left/shift_right/hold times/HMAC slots) (Kani); the order in which the final hop of a payment builds its fulfil attribution data in ChannelManager::claim_payment_internal (region of the claim loop, process_fulfill_attribution_data a recording stub; engine M); the HMAC position at which the sender verifies each hop of the attribution data of a fulfil (decode_fulfill_attribution_data, path length <= 27, HMAC verification / decryption stubs; engine M); onion construction and peeling, HMAC/ChaCha/ECDH and failure-code attribution are cryptographic or 1300-byte-buffer bound and outside the claim'])
 
 
 def run(S):
     final_hop_attribution(S, S.decls())
+    fulfill_decode_positions(S, S.decls())
     K.run_property(S, 'C14')
 
 
@@ -137,3 +138,86 @@ def _same(v, base):
         c_, a, b = v.alt
         return z3.If(X.zbool(c_), _same(a, base), _same(b, base))
     return z3.BoolVal(getattr(v, 'base', None) == base)
+
+
+def attribution_binding(claim):
+    """replay (oracle fulfill_attribution_battery 27, through the `_verif` hooks): for every path length 1..27 every hop,
+    last first, processes the fulfil attribution data under its real shared secret with its own hold time, and the
+    sender must decode the hold times of the first min(n, 20) hops, in order"""
+    c = claim if z3.is_expr(claim) else X.zbool(claim)
+    return Binding('fulfill_attribution_battery', [z3.IntVal(27)], [z3.If(c, 0, 1)], parse=lambda t: [0 if t[0] == '0' else 1], line_fn=lambda v: '27',
+                   which='oracle', via_solver=True, domain=[(27, 27)], panic=False)
+
+
+def fulfill_decode_positions(S, D):
+    """C14.p: decode_fulfill_attribution_data (whole function; key derivation, decryption, HMAC verification and the shift
+    are stubs). After k hops have been peeled off (k shift_lefts) the data still holds the slots of hops k..min(n,20)-1 -
+    what shift_right dropped on the way back is gone (C14.k) - so the HMAC of hop k that covers exactly what is present is
+    the one at position min(n,20)-k-1; any other position cannot verify."""
+    ids = ['C14.p.position_counts_present_slots', 'C14.p.nopanic', 'C14.p.witness']
+    if all(S._skip(o) for o in ids):
+        return
+    f = S.fn('decode_fulfill_attribution_data')
+    MAXH = 20
+    E = S.engine(unwind=MAXH + 2)
+    mem = {}
+    n = E.sym('path.hops.len', 'usize')
+    E.assume(z3.And(n.t >= 1, n.t <= 27))
+    take_n = []
+    verifies, pushes, nexts = [], [], [0]
+    ok = [z3.Bool('hop%d.hmac_verifies' % k) for k in range(MAXH + 2)]
+
+    def h_take(E_, m, func, argv, guard, mem_, dty, caller):
+        take_n.append(argv[1])
+        return X.Opaque('take iterator')
+
+    def h_next(E_, m, func, argv, guard, mem_, dty, caller):
+        k = nexts[0]
+        nexts[0] += 1
+        lim = X.zint(take_n[0].t) if take_n else None
+        if lim is None:
+            raise X.Unsupported('next() before take()')
+        more = z3.And(k < lim, k < n.t)           # Take yields at most its bound, and the keys run out with the hops
+        return X.En('Option', z3.If(more, 1, 0), {1: [X.Tup([X.I(k, 'usize'), X.Adt('SharedSecret', {}, base='secret%d' % k)])]})
+
+    def h_verify(E_, m, func, argv, guard, mem_, dty, caller):
+        k = len(verifies)
+        verifies.append((X.zbool(guard), argv[3]))
+        return X.En('Result', z3.If(ok[k], 0, 1), {0: [E.sym('hold_time%d' % k, 'u32')], 1: [X.UNIT]})
+    for rx, h in [
+        (r'construct_onion_keys_generic::<', lambda *a: X.Opaque('key iterator')),
+        (r'^<.* as Iterator>::map::<', lambda *a: X.Opaque('mapped iterator')),
+        (r'^<.* as Iterator>::enumerate$', lambda *a: X.Opaque('enumerated iterator')),
+        (r'^<.* as Iterator>::take$', h_take),
+        (r'^<(?:std::iter::)?Take<.*> as IntoIterator>::into_iter$', lambda E_, m, func, argv, *a: argv[0]),
+        (r'^<(?:std::iter::)?Take<.*> as Iterator>::next$', h_next),
+        (r'Vec::<(?:\w+::)*RouteHop>::len$', lambda *a: n),
+        (r'Vec<(?:\w+::)*RouteHop> as (?:std::ops::)?Deref>::deref$', lambda *a: X.Opaque('hops')),
+        (r'SharedSecret as (?:std::convert::)?AsRef<\[u8\]>>::as_ref$', lambda *a: X.Opaque('secret bytes')),
+        (r'AttributionData::crypt$|AttributionData::shift_left$', lambda *a: X.UNIT),
+        (r'AttributionData::verify$', h_verify),
+        (r'Vec::<u32>::push$', lambda E_, m, func, argv, guard, *a: (pushes.append(X.zbool(guard)), X.UNIT)[1]),
+        (r'Vec::<u32>::new$', lambda *a: X.Opaque('hold times')),
+        (r'Vec<u8> as (?:std::ops::)?Deref>::deref$', lambda *a: X.Opaque('empty message')),
+        (r'Arguments::<.*>::from_str$|Arguments::<.*>::new', lambda *a: X.Opaque('fmt args')),
+        (r'Record::<.*>::new', lambda *a: X.Opaque('log record')),
+        (r'Logger>::log$', lambda *a: X.UNIT),
+        (r'Argument::<.*>::new_', lambda *a: X.Opaque('fmt arg')),
+        (r'^std::mem::drop::<|drop_in_place', lambda *a: X.UNIT),
+    ]:
+        E.models.insert(0, (re.compile(rx), h))
+    args = [X.Opaque('secp'), X.Opaque('logger'), E.sym('path', f.params[2][1], mem), X.Opaque('session key'), X.Adt('AttributionData', {}, base='attribution')]
+    S.call(E, f, args, mem)
+    present = z3.If(n.t < MAXH, n.t, MAXH)
+    conj = []
+    for k, (g, pos) in enumerate(verifies):
+        conj.append(z3.Implies(g, z3.And(k < present, X.zint(pos.t) == present - k - 1)))
+    n_ver = z3.Sum([z3.If(g, 1, 0) for g, p in verifies]) if verifies else z3.IntVal(0)
+    n_push = z3.Sum([z3.If(g, 1, 0) for g in pushes]) if pushes else z3.IntVal(0)
+    all_ok = z3.And(*ok)
+    S.prove(ids[0], E, [], z3.And(*conj, z3.Implies(all_ok, z3.And(n_ver == present, n_push == present))),
+            'decoding a fulfil\'s attribution data, the sender verifies hop k - after peeling k hops off - at the HMAC position that covers exactly the hops whose slots are still present, min(n, 20) - k - 1 (the last attributable hop at position 0), visits exactly the first min(n, 20) hops and reports one hold time per verified hop, for every path length up to 27',
+            [attribution_binding(z3.BoolVal(False))], bounds='whole function, path length 1..27, each hop\'s HMAC check free; key derivation / decryption / shift stubbed')
+    S.no_panic(ids[1], E, [], 'the position arithmetic cannot underflow', [attribution_binding(z3.BoolVal(False))])
+    S.witness(ids[2], E, [n.t == 27, all_ok], n_push == MAXH)
+    S.validate('C14.p.validate', E, attribution_binding(z3.BoolVal(True)), n=1, extra_vectors=[(27,)])
